@@ -62,6 +62,16 @@ TEXT.update({
  },
 })
 
+TEXT.update({
+ "C24": {
+  "engine": "M",
+  "technique": "symbolic execution of the MIR of the DICOM JSON element serializer and value wrappers with serde calls as event-recording contracts; z3 decides the Annex F grammar of the event stream per VR",
+  "level": "Per VR class (AT, US/SS/UL/SL, LO, PN, OB/UN, empty and zero-item values) the solver shows for ALL symbolic payloads that the recorded serde event stream has the Annex F shape and carries exactly the stored values "
+           "(AT: the 8 upper-case hex digits decoded from the real format template). Kani exceeded 24 GB on one element.",
+  "note": "object-level key order/format, sequences, FL/FD and 64-bit VRs, serde_json's text layer and the base64 alphabet are outside; each case is cross-checked against the real serde_json text on a solver-chosen input",
+ },
+})
+
 _NOTYET = "check not built yet in this session (design in DESIGN.md §3); not claimed until its harness has produced a verdict"
 NOT_APPLICABLE = {p: _NOTYET for p in ["C%02d" % i for i in range(1, 37)]}
 NOT_APPLICABLE.update({
